@@ -131,13 +131,16 @@ func aesBlock(encrypt bool) externalFn {
 			// such a path is reported as not covered
 			panic(in.unsupported("AES block operation on symbolic data"))
 		}
+		hostAESmu.Lock()
 		blk := hostAES[string(key)]
 		if blk == nil {
 			blk, _ = aes.NewCipher(key)
-			hostAESmu.Lock()
+			if len(hostAES) > 4096 {
+				hostAES = map[string]cipher.Block{}
+			}
 			hostAES[string(key)] = blk
-			hostAESmu.Unlock()
 		}
+		hostAESmu.Unlock()
 		var out [16]byte
 		if encrypt {
 			blk.Encrypt(out[:], src)
